@@ -29,6 +29,9 @@ def x_obligations(tier):
     for pre, n in [("", 3), ("h/a/", 2)]:
         o.append(Obl(f"C14-frozen-cached[{pre!r}+{n}]", M, "frozen", env={"VF_OP": "3", "VF_PRE": pre, "VF_N": str(n), "VF_CACHES": "1"}, timeout=T, expect="find", family="C14-shared",
                      bound="same with spil's caches ON (cache keys are realised: bug-hunt only, exhaustion not expected)"))
+    for pre, n in [("h/a/", 1), ("h/s/q1/v", 1)]:
+        o.append(Obl(f"C14-frozen-cached[op=4,{pre!r}+{n}]", M, "frozen", env={"VF_OP": "4", "VF_PRE": pre, "VF_N": str(n), "VF_CACHES": "1"}, timeout=90 if tier == "quick" else T, expect="find", family="C14-shared",
+                     bound="queries (also of optional values only) with spil's caches ON: later Sids of that string are what they were (bug-hunt)"))
     # a Sid that still carries a REFUSED query (it shares the base Sid's resolved fields when the caches are on) is not equal to the base Sid
     for pre, suf2 in [("h/a/", "?zz=1"), ("h/s/q1/v", "?q=zz")]:
         o.append(Obl(f"C14-eq-uri[refused query,{pre!r}+1 vs +1+{suf2!r}]", M, "eq_uri", env={"VF_TI": "0", "VF_TJ": "0", "VF_PRE": pre, "VF_N": "1", "VF_SUF2": suf2, "VF_CACHES": "1"}, timeout=60 if tier == "quick" else T,
